@@ -164,7 +164,8 @@ impl Ipv6Packet {
     pub fn set_flow_label(&self, flow_label: Rc<Object>) -> Result<(), String> {
         match flow_label.as_ref() {
             Object::Integer(flow_label) => {
-                self.header.borrow_mut().flow_label = *flow_label as u32;
+                // the flow label is a 20-bit field
+                self.header.borrow_mut().flow_label = (*flow_label as u32) & 0x000F_FFFF;
                 Ok(())
             }
             _ => Err("Invalid value for Ipv6 property flow label".to_string()),
